@@ -241,11 +241,154 @@ func blurFirstIndex(p Path) Path {
 	return EncodePath(st)
 }
 
+type rootPair [2]Root
+
+func mkPair(a, b Root) rootPair {
+	if rootLess(b, a) {
+		a, b = b, a
+	}
+	return rootPair{a, b}
+}
+
+func rootLess(a, b Root) bool {
+	if a.Kind != b.Kind {
+		return a.Kind < b.Kind
+	}
+	return a.Index < b.Index
+}
+
+// aliasDemand computes, for every function, the pairs of its parameter roots
+// that can designate the same object in some call. Exported functions of
+// exported types are called by users, who may pass any same-typed pointers
+// aliased (that is the property). An unexported function is called only from
+// the call sites in the two packages: a pair of its roots is demanded iff at
+// some call site the two actuals may designate overlapping storage — the same
+// local/global location, or locations at overlapping paths below two roots of
+// the caller that are themselves demanded. Distinct local objects, a local and
+// a parameter, package state and a parameter never alias.
+func (a *Analysis) aliasDemand() (map[*ssa.Function]map[rootPair]bool, map[*ssa.Function]int) {
+	need := map[*ssa.Function]map[rootPair]bool{}
+	sites := map[*ssa.Function]int{}
+	var work []*ssa.Function
+	demand := func(f *ssa.Function, p rootPair) {
+		if need[f] == nil {
+			need[f] = map[rootPair]bool{}
+		}
+		if !need[f][p] {
+			need[f][p] = true
+			work = append(work, f)
+		}
+	}
+	for _, f := range a.P.Funcs {
+		if !a.P.IsAPIRoot(f) || a.AliasByEvaluation[load.ShortName(f)] {
+			continue
+		}
+		roots := a.Info[f].aliasRoots()
+		for i := range roots {
+			for j := i; j < len(roots); j++ {
+				if i == j && roots[i].r.Kind != KElem {
+					continue
+				}
+				if mayAliasShapes(roots[i], roots[j]) {
+					demand(f, mkPair(roots[i].r, roots[j].r))
+				}
+			}
+		}
+	}
+	counted := map[*ssa.Function]bool{}
+	// every function's call sites are examined at least once (same-location actuals need no demand in the caller)
+	work = append(work, a.P.Funcs...)
+	for len(work) > 0 {
+		f := work[len(work)-1]
+		work = work[:len(work)-1]
+		fi := a.Info[f]
+		mayAlias := func(la, lb Loc) bool {
+			if la.Root.Kind == KNil || lb.Root.Kind == KNil {
+				return false
+			}
+			if la.Root == lb.Root {
+				return Overlap(la.Path, lb.Path)
+			}
+			pa := la.Root.Kind == KParam || la.Root.Kind == KElem
+			pb := lb.Root.Kind == KParam || lb.Root.Kind == KElem
+			if pa && pb {
+				return need[f][mkPair(la.Root, lb.Root)] && Overlap(la.Path, lb.Path)
+			}
+			return false
+		}
+		for _, b := range f.Blocks {
+			for _, in := range b.Instrs {
+				c, ok := in.(ssa.CallInstruction)
+				if !ok {
+					continue
+				}
+				callee, lit := load.StaticCallee(c)
+				h, acts := callee, load.Actuals(c)
+				if lit != nil {
+					h, acts = lit, load.OnceActuals(c)
+				}
+				if h == nil || a.Info[h] == nil {
+					continue
+				}
+				if !counted[f] {
+					sites[h]++
+				}
+				hroots := a.Info[h].aliasRoots()
+				locsOf := func(r rootInfo) []Loc {
+					if r.r.Index >= len(acts) {
+						return nil
+					}
+					var out []Loc
+					if r.r.Kind == KElem {
+						for _, pv := range fi.elemsOf(in, acts[r.r.Index]) {
+							out = append(out, pv.Loc)
+						}
+						return out
+					}
+					for _, pv := range fi.operand(acts[r.r.Index]) {
+						out = append(out, pv.Loc)
+					}
+					return out
+				}
+				for i := range hroots {
+					for j := i; j < len(hroots); j++ {
+						if i == j && hroots[i].r.Kind != KElem {
+							continue
+						}
+						if !mayAliasShapes(hroots[i], hroots[j]) {
+							continue
+						}
+						hit := false
+						la, lb := locsOf(hroots[i]), locsOf(hroots[j])
+						for _, x := range la {
+							for _, y := range lb {
+								if i == j && x == y && x.Root.Kind != KElem && x.Root.Kind != KFresh {
+									continue // the same single element
+								}
+								if mayAlias(x, y) {
+									hit = true
+								}
+							}
+						}
+						if hit {
+							demand(h, mkPair(hroots[i].r, hroots[j].r))
+						}
+					}
+				}
+			}
+		}
+		counted[f] = true
+	}
+	return need, sites
+}
+
 // RAlias: for every function and every pair of distinct roots that may alias
-// exactly, no read through one root follows an overlapping write through the
-// other, and they are not both written at overlapping paths.
+// exactly in some call (aliasDemand), no read through one root follows an
+// overlapping write through the other, and they are not both written at
+// overlapping paths.
 func (a *Analysis) RAlias() []report.Obligation {
 	var out []report.Obligation
+	need, sites := a.aliasDemand()
 	for _, f := range a.P.Funcs {
 		fi := a.Info[f]
 		roots := fi.aliasRoots()
@@ -311,12 +454,18 @@ func (a *Analysis) RAlias() []report.Obligation {
 						}
 					}
 				}
-				if len(hazards) > 0 {
+				demanded := need[f][mkPair(ra.r, rb.r)]
+				switch {
+				case len(hazards) > 0 && demanded:
 					o.OK = false
 					if firstPos != "" {
 						o.Pos = firstPos
 					}
 					o.Detail = "if " + ra.name + " and " + rb.name + " alias the result changes: " + strings.Join(hazards, "; ")
+				case len(hazards) > 0:
+					o.Detail = fmt.Sprintf("unexported function whose %d call site(s) never pass overlapping storage for %s and %s (distinct locals, or roots of the caller that cannot themselves alias); it would not tolerate aliasing: %s", sites[f], ra.name, rb.name, hazards[0])
+				case !demanded:
+					o.Detail += fmt.Sprintf(" (and none of its %d call site(s) passes them aliased)", sites[f])
 				}
 				out = append(out, o)
 			}
@@ -463,15 +612,40 @@ func isOnceType(t types.Type) bool {
 	return ok && n.Obj().Pkg() != nil && n.Obj().Pkg().Path() == "sync" && n.Obj().Name() == "Once"
 }
 
+type onceKey struct {
+	g    *ssa.Global
+	path Path
+}
+
 type onceInfo struct {
 	g        *ssa.Global
 	lits     map[*ssa.Function]bool
 	doCalls  map[*ssa.Function][]*ssa.Call // function -> its Do calls on this Once
 	oncePath Path
+	region   []Path // paths inside g written under this Once
 }
 
-func (a *Analysis) onces() map[*ssa.Global]*onceInfo {
-	out := map[*ssa.Global]*onceInfo{}
+func (oi *onceInfo) name() string {
+	if oi.oncePath == "" {
+		return oi.g.Name()
+	}
+	return oi.g.Name() + PrettyPath(oi.g.Type().(*types.Pointer).Elem(), oi.oncePath)
+}
+
+func (oi *onceInfo) covers(p Path) bool {
+	for _, r := range oi.region {
+		if Overlap(r, p) {
+			return true
+		}
+	}
+	return false
+}
+
+// onces finds every sync.Once (a field of a package-level variable, identified
+// by variable and field path), the functions run under it and the part of the
+// variable those functions write (the state it protects).
+func (a *Analysis) onces() map[onceKey]*onceInfo {
+	out := map[onceKey]*onceInfo{}
 	for _, f := range a.P.Funcs {
 		fi := a.Info[f]
 		for _, b := range f.Blocks {
@@ -486,21 +660,93 @@ func (a *Analysis) onces() map[*ssa.Global]*onceInfo {
 				}
 				pvs := fi.operand(c.Common().Args[0])
 				if len(pvs) != 1 || pvs[0].Loc.Root.Kind != KGlobal || lit == nil {
-					a.problem(f, in, "sync.Once.Do on something other than a field of one package-level variable with a function literal")
+					a.problem(f, in, "sync.Once.Do on something other than a field of one package-level variable with a function literal or method value")
 					continue
 				}
-				g := pvs[0].Loc.Root.Global
-				oi := out[g]
+				k := onceKey{pvs[0].Loc.Root.Global, pvs[0].Loc.Path}
+				oi := out[k]
 				if oi == nil {
-					oi = &onceInfo{g: g, lits: map[*ssa.Function]bool{}, doCalls: map[*ssa.Function][]*ssa.Call{}, oncePath: pvs[0].Loc.Path}
-					out[g] = oi
+					oi = &onceInfo{g: k.g, lits: map[*ssa.Function]bool{}, doCalls: map[*ssa.Function][]*ssa.Call{}, oncePath: k.path}
+					out[k] = oi
 				}
 				oi.lits[lit] = true
 				oi.doCalls[f] = append(oi.doCalls[f], c)
 			}
 		}
 	}
+	// protected regions: what the functions run under the Once write inside its variable
+	for _, oi := range out {
+		seen := map[Path]bool{}
+		add := func(ev Event) {
+			if ev.Op == OpWrite && ev.Loc.Root.Kind == KGlobal && ev.Loc.Root.Global == oi.g && !isOncePath(oi.g, ev.Loc.Path) && !seen[ev.Loc.Path] {
+				seen[ev.Loc.Path] = true
+				oi.region = append(oi.region, ev.Loc.Path)
+			}
+		}
+		for l := range oi.lits {
+			if li := a.Info[l]; li != nil {
+				for _, b := range l.Blocks {
+					for _, in := range b.Instrs {
+						for _, ev := range li.Events[in] {
+							add(ev)
+						}
+					}
+				}
+			}
+		}
+		for f, calls := range oi.doCalls {
+			for _, c := range calls {
+				for _, ev := range a.Info[f].Events[c] {
+					add(ev)
+				}
+			}
+		}
+		sort.Slice(oi.region, func(i, j int) bool { return oi.region[i] < oi.region[j] })
+	}
 	return out
+}
+
+// isOncePath: does the path lead into a sync.Once field of g?
+func isOncePath(g *ssa.Global, p Path) bool {
+	t := g.Type().(*types.Pointer).Elem()
+	for _, st := range p.Steps() {
+		if isOnceType(t) {
+			return true
+		}
+		switch u := t.Underlying().(type) {
+		case *types.Struct:
+			if !st.Field || st.N >= u.NumFields() {
+				return false
+			}
+			t = u.Field(st.N).Type()
+		case *types.Array:
+			t = u.Elem()
+		case *types.Slice:
+			t = u.Elem()
+		default:
+			return false
+		}
+	}
+	return isOnceType(t)
+}
+
+func onceFieldCount(t types.Type) int {
+	switch u := t.Underlying().(type) {
+	case *types.Struct:
+		if isOnceType(t) {
+			return 1
+		}
+		n := 0
+		for i := 0; i < u.NumFields(); i++ {
+			n += onceFieldCount(u.Field(i).Type())
+		}
+		return n
+	case *types.Array:
+		if onceFieldCount(u.Elem()) > 0 {
+			return int(u.Len()) * onceFieldCount(u.Elem())
+		}
+	}
+	return 0
 }
 
 func dominatesInstr(x, y ssa.Instruction) bool {
@@ -523,15 +769,32 @@ func dominatesInstr(x, y ssa.Instruction) bool {
 func (a *Analysis) RGlobal() []report.Obligation {
 	var out []report.Obligation
 	onces := a.onces()
+	var keys []onceKey
+	for k := range onces {
+		keys = append(keys, k)
+	}
+	sort.Slice(keys, func(i, j int) bool {
+		if keys[i].g.Name() != keys[j].g.Name() {
+			return keys[i].g.Name() < keys[j].g.Name()
+		}
+		return keys[i].path < keys[j].path
+	})
 	litOf := map[*ssa.Function]*onceInfo{}
+	doCallOf := map[ssa.Instruction]*onceInfo{}
 	for _, oi := range onces {
 		for l := range oi.lits {
 			litOf[l] = oi
 		}
+		for _, calls := range oi.doCalls {
+			for _, c := range calls {
+				doCallOf[c] = oi
+			}
+		}
 	}
 	// guarding accessors: every return dominated by a Do call on the Once
-	accessor := map[*ssa.Function]*onceInfo{}
-	for _, oi := range onces {
+	accessor := map[*ssa.Function][]*onceInfo{}
+	for _, k := range keys {
+		oi := onces[k]
 		for f, calls := range oi.doCalls {
 			all := true
 			for _, rs := range a.Info[f].Sum.Returns {
@@ -546,9 +809,17 @@ func (a *Analysis) RGlobal() []report.Obligation {
 				}
 			}
 			if all {
-				accessor[f] = oi
+				accessor[f] = append(accessor[f], oi)
 			}
 		}
+	}
+	isAccessor := func(f *ssa.Function, oi *onceInfo) bool {
+		for _, x := range accessor[f] {
+			if x == oi {
+				return true
+			}
+		}
+		return false
 	}
 	// (1) writers
 	for _, f := range a.P.Funcs {
@@ -573,6 +844,9 @@ func (a *Analysis) RGlobal() []report.Obligation {
 					if oi := litOf[f]; oi != nil && ev.Loc.Root.Kind == KGlobal && ev.Loc.Root.Global == oi.g {
 						continue
 					}
+					if oi := doCallOf[in]; oi != nil && ev.Loc.Root.Kind == KGlobal && ev.Loc.Root.Global == oi.g {
+						continue // performed by the function run under this Once, on the variable holding the Once
+					}
 					if len(bad) < 3 {
 						bad = append(bad, fi.EventString(ev))
 					}
@@ -592,10 +866,12 @@ func (a *Analysis) RGlobal() []report.Obligation {
 		out = append(out, o)
 	}
 	// (2) every access of Once-protected state is after the Do
-	for g, oi := range onces {
+	for _, k := range keys {
+		oi := onces[k]
+		g := oi.g
 		for _, f := range a.P.Funcs {
 			if oi.lits[f] {
-				continue
+				continue // the literal itself
 			}
 			fi := a.Info[f]
 			var guards []ssa.Instruction
@@ -605,7 +881,7 @@ func (a *Analysis) RGlobal() []report.Obligation {
 			for _, b := range f.Blocks {
 				for _, in := range b.Instrs {
 					if c, ok := in.(*ssa.Call); ok {
-						if cal := c.Common().StaticCallee(); cal != nil && accessor[cal] == oi {
+						if cal, _ := load.StaticCallee(c); cal != nil && isAccessor(cal, oi) {
 							guards = append(guards, c)
 						}
 					}
@@ -616,6 +892,9 @@ func (a *Analysis) RGlobal() []report.Obligation {
 			var badPos string
 			for _, b := range f.Blocks {
 				for _, in := range b.Instrs {
+					if doCallOf[in] == oi {
+						continue // the initialiser's own accesses, inside the Once
+					}
 					for _, ev := range fi.Events[in] {
 						if ev.Inherited || ev.Loc.Root.Kind != KGlobal || ev.Loc.Root.Global != g {
 							continue
@@ -623,8 +902,8 @@ func (a *Analysis) RGlobal() []report.Obligation {
 						if ev.Op != OpRead && ev.Op != OpWrite {
 							continue
 						}
-						if strings.HasPrefix(string(ev.Loc.Path), string(oi.oncePath)) {
-							continue // the Once itself
+						if isOncePath(g, ev.Loc.Path) || !oi.covers(ev.Loc.Path) {
+							continue // a Once itself, or state this Once does not protect
 						}
 						nAcc++
 						ok := false
@@ -645,8 +924,8 @@ func (a *Analysis) RGlobal() []report.Obligation {
 			if nAcc == 0 {
 				continue
 			}
-			o := report.Obligation{Rule: "R-GLOBAL", Key: "R-GLOBAL/" + load.ShortName(f) + "/after-once:" + g.Name(), Config: a.cfg(), Pos: a.fnPos(f), OK: len(bad) == 0,
-				Detail: fmt.Sprintf("%d accesses of %s, each dominated by its sync.Once.Do (or by a call of an accessor that always runs it)", nAcc, g.Name())}
+			o := report.Obligation{Rule: "R-GLOBAL", Key: "R-GLOBAL/" + load.ShortName(f) + "/after-once:" + oi.name(), Config: a.cfg(), Pos: a.fnPos(f), OK: len(bad) == 0,
+				Detail: fmt.Sprintf("%d accesses of the state built under %s, each dominated by its sync.Once.Do (or by a call of an accessor that always runs it)", nAcc, oi.name())}
 			if len(bad) > 0 {
 				o.Pos = badPos
 				o.Detail = "access of lazily initialised state not dominated by its sync.Once.Do: " + strings.Join(bad, "; ")
@@ -654,10 +933,22 @@ func (a *Analysis) RGlobal() []report.Obligation {
 			out = append(out, o)
 		}
 	}
-	// (3) each lazily built global has exactly one Once, one literal
-	for g, oi := range onces {
-		o := report.Obligation{Rule: "R-GLOBAL", Key: "R-GLOBAL/once:" + g.Name(), Config: a.cfg(), Pos: "-", OK: len(oi.lits) == 1,
-			Detail: fmt.Sprintf("%d initialiser literal(s) under one sync.Once", len(oi.lits))}
+	// (3) each Once runs exactly one function, and no two Onces build overlapping state
+	for i, k := range keys {
+		oi := onces[k]
+		o := report.Obligation{Rule: "R-GLOBAL", Key: "R-GLOBAL/once:" + oi.name(), Config: a.cfg(), Pos: "-", OK: len(oi.lits) == 1,
+			Detail: fmt.Sprintf("%d initialiser function(s) under this sync.Once; it builds %d location(s) of %s", len(oi.lits), len(oi.region), oi.g.Name())}
+		for j, k2 := range keys {
+			if j == i || k2.g != k.g {
+				continue
+			}
+			for _, r := range onces[k2].region {
+				if oi.covers(r) {
+					o.OK = false
+					o.Detail = fmt.Sprintf("state of %s is written both under %s and under %s", oi.g.Name(), oi.name(), onces[k2].name())
+				}
+			}
+		}
 		out = append(out, o)
 	}
 	// (4) package-level variables inventory
@@ -671,21 +962,19 @@ func (a *Analysis) RGlobal() []report.Obligation {
 		sort.Strings(names)
 		for _, n := range names {
 			g := sp.Members[n].(*ssa.Global)
-			hasOnce := false
-			if st, ok := g.Type().(*types.Pointer).Elem().Underlying().(*types.Struct); ok {
-				for i := 0; i < st.NumFields(); i++ {
-					if isOnceType(st.Field(i).Type()) {
-						hasOnce = true
-					}
+			nOnce := onceFieldCount(g.Type().(*types.Pointer).Elem())
+			used := 0
+			for _, k := range keys {
+				if k.g == g {
+					used++
 				}
 			}
-			_, used := onces[g]
 			o := report.Obligation{Rule: "R-GLOBAL", Key: "R-GLOBAL/var:" + load.ShortName0(sp) + n, Config: a.cfg(), Pos: a.P.Rel(g.Pos()), OK: true}
-			if hasOnce {
+			if nOnce > 0 {
 				o.Detail = "lazily built under its own sync.Once"
-				if !used {
+				if used != nOnce {
 					o.OK = false
-					o.Detail = "has a sync.Once field that no Do call uses"
+					o.Detail = fmt.Sprintf("has %d sync.Once field(s), %d of them used by a Do call", nOnce, used)
 				}
 			} else {
 				o.Detail = "written only by the package initialiser (see …/writes obligations)"
